@@ -454,13 +454,15 @@ class ModelBasedSearcher(StochasticSearcher):
             skip_optimization=self.state_transformer.skip_optimization,
         )
         if self._restrict_configurations is not None:
-            state["restrict_configurations"] = self._restrict_configurations
+            state["restrict_configurations"] = self._restrict_configurations.copy()
         return state
 
     def _restore_from_state(self, state: Dict[str, Any]):
         super()._restore_from_state(state)
         self.state_transformer.set_params(state["model_params"])
         self._restrict_configurations = state.get("restrict_configurations")
+        if self._restrict_configurations is not None:
+            self._restrict_configurations = self._restrict_configurations.copy()
         # The internal random searcher is generated once needed, and it shares its
         # ``random_state`` with this searcher here
         self._random_searcher = None
